@@ -193,7 +193,7 @@ class C18(Prop):
 
     def extra_checks(self, tier, rng):
         """fresh interpreters under different string-hash seeds"""
-        n = 24 if tier == 'quick' else 200
+        n = 56 if tier == 'quick' else 200
         cases = []
         for i in range(n):
             r_ = rng.random()
